@@ -16,18 +16,23 @@ theorem hdrAfter_append (h : Hdr) (a b : List Op) : hdrAfter h (a ++ b) = hdrAft
   | nil => rfl
   | cons op rest ih => cases op <;> simp [hdrAfter, ih]
 
-theorem stateAfter_append (s : State) (a b : List Op) :
-    stateAfter s (a ++ b) = stateAfter (stateAfter s a) b := by
-  simp [stateAfter, hdrAfter_append, List.any_append, Bool.or_assoc]
+theorem stateAfter_append (F : FileSem) (s : State) (a b : List Op) :
+    stateAfter F s (a ++ b) = stateAfter F (stateAfter F s a) b := by
+  simp only [stateAfter, hdrAfter_append, List.any_append, State.mk.injEq, true_and]
+  constructor
+  · cases F.loadMergedErr.isNone <;> simp [Bool.or_assoc]
+  · cases F.loadTablesErr.isNone <;> simp [Bool.or_assoc]
 
 /-- reads never change the state: the state after a history is determined by its setter calls -/
-theorem run_state (F : FileSem) (s : State) (ops : List Op) : (run F s ops).1 = stateAfter s ops := by
+theorem run_state (F : FileSem) (s : State) (ops : List Op) : (run F s ops).1 = stateAfter F s ops := by
   induction ops generalizing s with
   | nil => simp [run, stateAfter, hdrAfter]
   | cons op rest ih =>
     simp only [run]
     rw [ih]
     cases op <;> simp [step, stateAfter, hdrAfter, isLoadMerged, isLoadTables]
+    · cases F.loadMergedErr <;> simp
+    · cases F.loadTablesErr <;> simp
 
 theorem run_length (F : FileSem) (s : State) (ops : List Op) : (run F s ops).2.length = ops.length := by
   induction ops generalizing s with
@@ -38,7 +43,7 @@ theorem run_length (F : FileSem) (s : State) (ops : List Op) : (run F s ops).2.l
     brought to the option / loaded flags determined by the setter calls before it — a function only of
     the file, the call's arguments, and the option in force. Nothing any earlier *read* did matters. -/
 theorem read_pure (F : FileSem) (s : State) (ops : List Op) (i : Nat) (op : Op) (h : ops[i]? = some op) :
-    (run F s ops).2[i]? = some (pureResult F (stateAfter s (ops.take i)) op) := by
+    (run F s ops).2[i]? = some (pureResult F (stateAfter F s (ops.take i)) op) := by
   induction ops generalizing s i with
   | nil => simp at h
   | cons o rest ih =>
@@ -50,14 +55,14 @@ theorem read_pure (F : FileSem) (s : State) (ops : List Op) (i : Nat) (op : Op) 
       simp only [List.getElem?_cons_succ] at h
       simp only [run, List.getElem?_cons_succ, List.take_succ_cons]
       rw [ih _ j h]
-      have hs : (step F s o).1 = stateAfter s [o] := by
+      have hs : (step F s o).1 = stateAfter F s [o] := by
         have := run_state F s [o]; simpa [run] using this
       rw [hs, ← stateAfter_append]; rfl
 
 /-- re-reading: the same call issued twice with only reads in between gives the same result -/
 theorem reread_same (F : FileSem) (s : State) (ops : List Op) (i j : Nat) (op : Op)
     (hi : ops[i]? = some op) (hj : ops[j]? = some op)
-    (hsame : stateAfter s (ops.take i) = stateAfter s (ops.take j)) :
+    (hsame : stateAfter F s (ops.take i) = stateAfter F s (ops.take j)) :
     (run F s ops).2[i]? = (run F s ops).2[j]? := by
   rw [read_pure F s ops i op hi, read_pure F s ops j op hj, hsame]
 
@@ -82,13 +87,16 @@ theorem range_at_agree (F : FileSem) (s : State) (n : Nat) :
   simp only [step]; cases F.sheets[n]? <;> rfl
 
 /-- under the default option (for the lazy readers: under any option), the entries of `worksheets()` are the
-    per-name `worksheet_range` results, in the reader's sheet order -/
+    per-name `worksheet_range` results, in the reader's sheet order — for the sheets whose read succeeds; a sheet
+    whose read is an error has no entry -/
 theorem worksheets_agree (F : FileSem) (s : State) (h : s.hdr = .firstNonEmpty ∨ F.eager = false) :
-    (step F s .worksheets).2 = "&".intercalate (F.sheets.map fun n => n ++ "=" ++ (step F s (.range n)).2) := by
+    (step F s .worksheets).2 = "&".intercalate (F.sheets.filterMap fun n =>
+      if F.failed (step F s (.range n)).2 then none else some (n ++ "=" ++ (step F s (.range n)).2)) := by
   simp only [step, worksheetsOut]
   rcases h with h | h
-  · rw [h]; simp
-  · rw [h]; simp
+  · simp only [h, ite_self]
+  · simp only [h, Bool.false_eq_true, if_false]
+    rfl
 
 /-- reads commute: swapping two adjacent non-setter calls swaps their results and changes nothing else -/
 def isRead : Op → Bool
@@ -147,6 +155,24 @@ theorem distinct_names_distinct_parts (F : FileSem) (n1 n2 p1 p2 : String)
   simp only [beq_iff_eq] at k1 k2
   subst k1 k2
   exact ⟨m1, m2⟩
+
+/-- a load that fails leaves the reader as it was: the error is returned, no cache is set -/
+theorem failed_load_is_noop (F : FileSem) (s : State) :
+    (∀ e, F.loadMergedErr = some e → step F s .loadMerged = (s, e)) ∧
+    (∀ e, F.loadTablesErr = some e → step F s .loadTables = (s, e)) := by
+  constructor <;> intro e h <;> simp [step, h]
+
+/-- the calls whose result looks at a cache filled by `load_merged_regions` / `load_tables` -/
+def usesCaches : Op → Bool
+  | .mergedRegions | .mergedBySheet _ | .tableNames | .tableByName _ | .loadMerged | .loadTables => true
+  | _ => false
+
+/-- every other call — value, borrowed, indexed and formula reads, `worksheets()`, `worksheet_merge_cells`,
+    VBA, sheet names, metadata — returns the same result whether or not the caches were loaded (successfully or
+    not, before or after): it depends on the file, its arguments and the header-row option only -/
+theorem reads_ignore_caches (F : FileSem) (s s' : State) (op : Op) (hop : usesCaches op = false)
+    (hh : s.hdr = s'.hdr) : (step F s op).2 = (step F s' op).2 := by
+  cases op <;> simp_all [usesCaches, step]
 
 /-- auto-detection wrapper: `Sheets` is a tagged union whose every method forwards to the wrapped reader -/
 inductive Kind where | xls | xlsx | xlsb | ods
